@@ -9,6 +9,8 @@ func (g *gen) stream9(name string, n int) bool {
 			iters := 400 / workers
 			g.emit("AGCONC %d %d %d %d", workers, iters, 1+g.r.intn(4), g.r.intn(1<<30))
 		}
+	case "alloc":
+		g.allocStream(n)
 	case "client-conc":
 		for i := 0; i < n; i++ {
 			g.caseMark("client-conc", i)
